@@ -386,10 +386,14 @@ class RandomWalk(Processor):
         ----------
         meta_molecule:  :class:`polyply.src.meta_molecule.MetaMolecule`
         """
-        if not self.start_node:
-            first_node = _find_starting_node(meta_molecule)
-        else:
+        if self.start_node:
             first_node = self.start_node
+        # restraints have been laid out along the tree of a root that
+        # was set before; growing from another node would undo them
+        elif meta_molecule.root is not None:
+            first_node = meta_molecule.root
+        else:
+            first_node = _find_starting_node(meta_molecule)
 
         meta_molecule.root = first_node
 
